@@ -211,6 +211,25 @@ func r062(c *Ctx) {
 			}
 		}
 	}
+	if !okTL {
+		// (the first error may be kept and returned after the loop was left: judged way by way)
+		if paths, complete := enumPathsX(ntl, func(*ssa.Return) bool { return true }, 4000); complete {
+			for _, cs := range callsTo(ntl, nt) {
+				e := errResultOf(cs.instr.(*ssa.Call))
+				n, good := 0, 0
+				for _, pth := range paths {
+					if _, nn := nilKnowledgeOf(pth.conds, sameAs(e)); !nn || pth.ret == nil || len(pth.ret.Results) != 2 {
+						continue
+					}
+					n++
+					if isNilConst(pth.pathValue(retVal(pth.ret, 0))) && pth.pathValue(retVal(pth.ret, 1)) == e {
+						good++
+					}
+				}
+				okTL = n > 0 && good == n
+			}
+		}
+	}
 	c.ob(rule, "NewTargetList/invalid-target-aborts", ntl.Pos(), okTL, true, "a malformed target must abort the list with its error")
 	// every entry of the list is a Target of its own (one probe loop, one in-flight table, one Dispose each): an object
 	// shared between entries is started twice and stopped once
